@@ -110,6 +110,9 @@ def run(ctx, replay):
     if len(events) != len(sel):
         raise vlib.Infra("harness answered %d of %d rows" % (len(events), len(sel)))
     ev_by_t = {e["t"]: e for e in events}
+    for e in events:
+        if e["out"].get("infra"):
+            raise vlib.Infra("row %d: %s" % (e["t"], e["out"]["infra"]))
     # the model's organizational-domain constant against the public suffix list the code uses
     if org_model is not None:
         for oe in org_events:
@@ -209,12 +212,15 @@ def run(ctx, replay):
     ctx.cov["evaluations"] = len(sel)
     ctx.cov["distinct_nontrivial"] = sum(1 for row in sel if nontrivial(row))
     ctx.cov["rows_by_table"] = {tab: sum(1 for row in sel if row["in"]["tab"] == tab)
-                                for tab in ("align", "verdict", "action", "shape")}
+                                for tab in ("align", "verdict", "action", "shape", "realdkim")}
+    ctx.cov["slow_lookup_rows"] = sum(1 for row in sel if row["in"]["slow"])
     ctx.cov["rule"] = ("rows = states of Dmarc.tla (one per input; distinct by construction): alignment table (4 From "
                        "domains x 2 spellings x 16 identifier spellings x DKIM/MAIL FROM/HELO x r/s), verdict table "
                        "(multisets of <= MaxDkim DKIM results over pass/fail/temperror x 4 domain relations, 7 SPF values x "
                        "4 relations, adkim x aspf, 6 From/case contexts), action table (7 identifier situations x p x sp x pct x "
-                       "13/5 lookup outcomes x 3 From domains x 2 spellings), From shapes; quick runs all but a seeded "
+                       "13/5 lookup outcomes x 3 From domains x 2 spellings x policy lookup fast / still unanswered when the "
+                       "pipeline-wide body checks return), From shapes, real messages (unsigned / valid / broken signature) "
+                       "evaluated by the real check.dkim; quick runs all but a seeded "
                        "quarter of the verdict table (MaxDkim=2) through the code, thorough everything (MaxDkim=3); "
                        "non-trivial = not a verdict-table row whose identifiers are all plain non-pass/non-temperror")
     ctx.cov["violated_predicates"] = preds
@@ -229,7 +235,11 @@ def run(ctx, replay):
         "the public-suffix list is trusted; the model's organizational-domain constant is compared with it on every run",
         "the scripted resolver answers case-insensitively (as DNS does); SERVFAIL = *net.DNSError{IsTemporary}, "
         "NXDOMAIN = *net.DNSError{IsNotFound}, 'none' = empty answer without error",
-        "SPF and DKIM results are injected by one scripted check in the pipeline (the row's authres results)",
+        "SPF and DKIM results are injected by one scripted check in the pipeline (the row's authres results), except in "
+        "the real-message rows where DKIM results come from the real check.dkim (default configuration) on really "
+        "signed messages (ed25519)",
+        "the scripted resolver honours the context like a real one; in slow rows the _dmarc query is answered when a "
+        "source-block check runs (a gate, no timer)",
         "pct is absent or 100 (the statement's restriction)",
         "TLC 1.8.0, CommunityModules Json",
     ]
